@@ -9,7 +9,10 @@ package benchunit
 // value is >= 10^k - 5*10^-(p+1) (never a tie: that bound is not a dyadic
 // rational). The constants below were computed in exact rational arithmetic.
 
-import "math"
+import (
+	"math"
+	"strconv"
+)
 
 const (
 	h10lo3 = 0x1.ffbe76c8b4396p-1 // prints >= 1.000 at 3 places
@@ -107,5 +110,72 @@ func H10Common() {
 	vndAssert(got == want, "shared-scale-is-that-of-the-smallest-non-zero-magnitude")
 	if min == 0 {
 		vndAssert(got == Scaler{3, 1, ""}, "all-zero-default-scale")
+	}
+}
+
+// H10NoOp: the no-op scale prints the shortest decimal that reads back to the same float.
+// Shortest formatting of an arbitrary symbolic float is outside the solvers' reach, so the
+// value is a solver-chosen member of a family around the places where an integer shortcut
+// or a digit-count slip would show: +-2^k, its two neighbours, 10^k and k+0.5 (k case-split);
+// the reference is the standard library's own shortest formatting.
+func H10NoOp() {
+	fam := vndParam("family")
+	k := vndConcretize(vndInt("k", 0, 80))
+	neg := vndBool("neg")
+	var v float64
+	switch fam {
+	case 0:
+		v = math.Ldexp(1, k-10)
+	case 1:
+		v = math.Nextafter(math.Ldexp(1, k-10), math.Inf(1))
+	case 2:
+		v = math.Nextafter(math.Ldexp(1, k-10), 0)
+	case 3:
+		v = 1
+		for i := 0; i < k%23; i++ {
+			v *= 10
+		}
+	case 4:
+		v = float64(k) + 0.5
+	default:
+		v = math.Ldexp(float64(k*2+1), 40) // odd multiples of 2^40: integral, beyond 2^40
+	}
+	if neg {
+		v = -v
+	}
+	got := NoOpScaler.Format(v)
+	want := strconv.FormatFloat(v, 'f', -1, 64)
+	vndReach("h10:noop")
+	vndAssert(got == want, "no-op-scale-prints-the-shortest-round-tripping-decimal")
+	back, err := strconv.ParseFloat(got, 64)
+	vndAssert(err == nil && back == v && math.Signbit(back) == math.Signbit(v), "no-op-scale-reads-back-to-the-same-float")
+	vndObserveStr("text", got)
+}
+
+// H10History: the scale chosen for a value does not depend on what was scaled before. One
+// arbitrary positive value w and a second value related to it by a concrete factor are
+// scaled alternately for both unit classes; the first answer for each (value, class) is
+// the reference for every later one (the first call of a path starts from the package's
+// initial state), and H10Scale pins the first answers to the documented thresholds.
+func H10History() {
+	w := vndFloat64("w")
+	vndAssume(vndAnd(h10Finite(w), w > 0))
+	rel := []float64{1, 1.024, 0.5, 1000}[vndParam("rel")]
+	x := w * rel
+	vndAssume(h10Finite(x))
+	d1 := CommonScale([]float64{w}, Decimal)
+	b1 := CommonScale([]float64{x}, Binary)
+	d2 := CommonScale([]float64{w}, Decimal)
+	b2 := CommonScale([]float64{x}, Binary)
+	vndReach("h10:history")
+	vndAssert(d2 == d1, "scale-independent-of-earlier-calls")
+	vndAssert(b2 == b1, "scale-independent-of-earlier-calls")
+	// the other way round: binary first on w
+	b3 := CommonScale([]float64{w}, Binary)
+	d3 := CommonScale([]float64{x}, Decimal)
+	b4 := CommonScale([]float64{w}, Binary)
+	vndAssert(b4 == b3, "scale-independent-of-earlier-calls")
+	if rel == 1 {
+		vndAssert(d3 == d1 && b3 == b1, "scale-independent-of-earlier-calls")
 	}
 }
